@@ -107,15 +107,21 @@ func driveC17(t *testing.T, out *vEmitter) {
 		// siblings of the proxy's own exact paths: only /robots.txt, /ping and /ready themselves are the proxy's
 		"/robots.txt.bak", "/robots.txt/", "/robots.txt/archive/2024.txt?rev=2", "/robots.txt%2Fold", "/robots.txt;v=1", "/robots.tx", "/ROBOTS.TXT", "/ping/", "/pingx", "/ready/x", "/readyz",
 		"/ws/chat", "/ws/", "/ws/a%2Fb?room=1", "/sock/a%20b?x=1", "/sock/", "/static-resp/x", "/a/", "/a/x", "/ab/x", "/a/b/x", "/a/b/c", "/a/b/c/", "/a/b/cd", "/nohost/x", "/a", "/ab", "/new/direct"}
-	queries := []string{"", "?q=1&r=a+b%20c", "?", "?x=%2F&y=%3D;z"}
+	queries := []string{"", "?q=1&r=a+b%20c", "?", "?x=%2F&y=%3D;z", "?a=1;b=2", "?filter=x;y;z&page=2"}
 	for si, set := range sets {
-		for _, variant := range []int{0, 1, 2, 3} {
+		for _, variant := range []int{0, 1, 2, 3, 4} {
 			// variant 2: every request also asks for a non-websocket protocol upgrade (Connection: Upgrade,
 			// Upgrade: h2c) -- still an ordinary proxied request
 			rawPath := variant == 1
 			// variant 3: a websocket upgrade request (Connection: upgrade, Upgrade: websocket), served by the upstream's
 			// websocket proxy: the same routing, the same request target
-			upgrade := variant >= 2
+			// variant 4: allow-query-semicolons (the server hands the proxy a request copy whose parsed query has ';' turned into
+			// '&'; what is sent upstream is still the query as the client wrote it)
+			semicolons := variant == 4
+			if semicolons && si != 1 && si != 3 && !vThorough() {
+				continue
+			}
+			upgrade := variant == 2 || variant == 3
 			upgradeTo := map[int]string{2: "h2c", 3: "websocket"}[variant]
 			if upgrade && si != 1 && si != 2 && si != 6 && !vThorough() {
 				continue
@@ -148,6 +154,7 @@ func driveC17(t *testing.T, out *vEmitter) {
 			}
 			e := vNewEnv(t, vEnvCfg{keepUpstream: true, mod: func(o *options.Options) {
 				o.UpstreamServers = options.UpstreamConfig{Upstreams: ups, ProxyRawPath: rawPath}
+				o.AllowQuerySemicolons = semicolons
 				o.Cookie.Refresh = 0
 			}})
 			// NewProxy sorted the configured slice in place: the order routes were registered in
@@ -170,7 +177,7 @@ func driveC17(t *testing.T, out *vEmitter) {
 					if strings.Contains(p, "?") && q != "" {
 						continue
 					}
-					if !vThorough() && qi > 1 && len(p) > 6 {
+					if !vThorough() && qi > 1 && len(p) > 6 && !(semicolons && qi >= 3) {
 						continue
 					}
 					target := p + q
